@@ -455,6 +455,40 @@ def mode_setters(F):
         r.ob(ok, {"add_instr in mode": m, "files_unconditionally": ok})
         if not ok:
             r.violate("%s | %s conditional" % (ai["path"], m), F.loc(ai), "add_instr files %s-mode code only under a condition: an accepted injection is silently dropped for some instructions" % m)
+    # an existing alternate / block alternate (and the tag appended to it) is extended, never replaced: add_instr assigns
+    # `self.alternate = Some(..)` only where the slot is known to be None
+    from vlib.facts import path_to, pat_variants
+    for a_ in walk(ai["body"]):
+        if a_.get("k") != "Assign":
+            continue
+        lp = place_path(a_["lhs"]) or ""
+        if not lp.endswith((".alternate", ".block_alt")):
+            continue
+        known_none = False
+        pth = path_to(ai["body"], a_) or []
+        for i_, (anc, _role) in enumerate(pth):
+            if not isinstance(anc, dict):
+                continue
+            if anc.get("k") == "Match" and (place_path(anc.get("scrut") or {}) or "").endswith(lp.split(".")[-1]):
+                for arm in anc["arms"]:
+                    if any(x is a_ for x in walk(arm["body"])):
+                        vs, wild = pat_variants(arm["pat"])
+                        known_none = (not wild) and {v for _a, v in vs} == {"None"} and "guard" not in arm
+            if anc.get("k") == "If" and peel(anc["cond"]).get("k") == "LetExpr" and (place_path(peel(anc["cond"])["init"]) or "").endswith(lp.split(".")[-1]):
+                vs, wild = pat_variants(peel(anc["cond"])["pat"])
+                in_else = "else" in anc and any(x is a_ for x in walk(anc["else"]))
+                in_then = any(x is a_ for x in walk(anc["then"]))
+                if {v for _a, v in vs} == {"Some"} and in_else:
+                    known_none = True
+                if {v for _a, v in vs} == {"None"} and in_then:
+                    known_none = True
+            if anc.get("k") == "If" and any(x.get("k") == "MethodCall" and x["method"] == "is_none" and (place_path(x["recv"]) or "").endswith(lp.split(".")[-1]) for x in walk(anc["cond"])) \
+                    and any(x is a_ for x in walk(anc["then"])):
+                known_none = True
+        r.ob(known_none, {"add_instr assigns": lp, "only where the slot is None": known_none})
+        if not known_none:
+            r.violate("%s | overwrites %s" % (ai["path"], lp.split(".")[-1]), F.loc(ai, a_),
+                      "add_instr can assign `%s` while it already holds a list: the instructions or the tag recorded there so far are discarded" % lp)
     r.count("plain_mode_arms", n)
     return r
 
@@ -495,6 +529,20 @@ def mode_helpers(F):
     r.count("mode_helpers", n)
     if n < 14:
         raise CheckError("expected ≥14 mode-selecting helpers, found %d" % n)
+    # only the selectors select: no other default method of the injection traits changes the current mode as a side effect
+    SEL = {"before", "after", "alternate", "semantic_after", "block_entry", "block_exit", "block_alt", "func_entry", "func_exit"}
+    SETTERS = {"set_instrument_mode_at", "set_func_instrument_mode", "set_instrument_mode"}
+    for fn in F.fns:
+        if fn.get("body") is None or not fn.get("in_trait") or not (fn["in_trait"].split("::")[-1] in ("IteratingInstrumenter", "Instrumenter")):
+            continue
+        nm = fn["name"]
+        if nm in SETTERS or nm in SEL or (nm.endswith("_at") and nm[:-3] in SEL):
+            continue
+        sets = [c for c in walk(fn["body"]) if c.get("k") == "MethodCall" and (c["method"] in SETTERS or c["method"] in SEL or (c["method"].endswith("_at") and c["method"][:-3] in SEL))]
+        r.ob(not sets, {"non-selector": nm, "selects a mode": [c["method"] for c in sets]})
+        if sets:
+            r.violate("%s | selects %s" % (fn["path"], sets[0]["method"]), F.loc(fn, sets[0]),
+                      "%s is not a mode selector but calls `%s`: after it, code the caller injects lands in another list than the one the caller had selected" % (nm, sets[0]["method"]))
     return r
 
 
